@@ -1,5 +1,6 @@
 import H4.Lemmas.Codecs
 import H4.Lemmas.CodecsRec
+import H4.Lemmas.CodecsSpread
 /-! # C15 — data written through one interface is seen identically through every other interface (property theorems)
 
     What is proved here is the agreement of the *record codecs the interfaces share*, each as `decode_B (encode_A x) = x`:
@@ -219,5 +220,32 @@ theorem dim_mfgr_to_old (r : DimRec) (h : r.InRange) :
   rfl
 
 example : decode_dfr8 (encode_mfgr ⟨7, 9, 106, 3, 1, 2, 0, 0⟩) = some ⟨7, 9, 106, 3, 1, 0, 0, 0⟩ := by decide
+
+/-! ## DFR8getimage into a buffer that is wider / taller than the image -/
+
+/-- **`spread_pixel`**: for every image width `w ≤ xdim` (the caller's row stride), every height and every buffer that
+    can hold the spread image, after the in-place row spreading of `DFR8getimage` pixel (r, c) of the image — read
+    contiguously to the start of the buffer — is at `r * xdim + c`: what GR returns for (r, c) -/
+theorem spread_pixel (w h xdim : Nat) (hw : w ≤ xdim) (buf : List Byte) (hlen : h = 0 ∨ (h - 1) * xdim + w ≤ buf.length)
+    (r c : Nat) (hr : r < h) (hc : c < w) :
+    (spreadRows w h xdim buf).getD (r * xdim + c) 0 = buf.getD (r * w + c) 0 := by
+  unfold spreadRows
+  split
+  · exact (spreadRowsFrom_spec w xdim hw h buf hlen).1 r c hr hc
+  · have : xdim = w := by omega
+    subst this; rfl
+
+/-- nothing at or beyond row `h` of the caller's buffer is written, and the buffer keeps its size (no byte beyond it) -/
+theorem spread_frame (w h xdim : Nat) (hw : w ≤ xdim) (buf : List Byte) (hlen : h = 0 ∨ (h - 1) * xdim + w ≤ buf.length) :
+    (spreadRows w h xdim buf).length = buf.length ∧
+    ∀ i, h * xdim ≤ i → (spreadRows w h xdim buf).getD i 0 = buf.getD i 0 := by
+  unfold spreadRows
+  split
+  · exact ⟨spreadRowsFrom_length w xdim h buf, (spreadRowsFrom_spec w xdim hw h buf hlen).2⟩
+  · exact ⟨rfl, fun _ _ => rfl⟩
+
+/-- a 3 x 2 image into a buffer of stride 4 (overlapping rows: 3 < 4 < 6) -/
+example : spreadRows 3 2 4 [1, 2, 3, 4, 5, 6, 0xA5, 0xA5] = [1, 2, 3, 4, 4, 5, 6, 0xA5]
+    ∧ imageArea 3 2 4 (spreadRows 3 2 4 [1, 2, 3, 4, 5, 6, 0xA5, 0xA5]) = [1, 2, 3, 4, 5, 6] := by decide
 
 end H4.Props.C15
